@@ -251,9 +251,9 @@ def evaluate__instance_expression(self: XPathToken, context: ta.ContextType = No
 
             result = self[1].evaluate(context)
             if isinstance(result, list) and not result:
-                return occurs in ('*', '?') or \
-                    isinstance(context.item, XPathFunction) and \
-                    context.item.name == XSD_ERROR
+                # An item that does not match the test, whatever the occurrence indicator
+                return isinstance(context.item, XPathFunction) and \
+                    context.item.name == XSD_ERROR and occurs in ('*', '?')
             elif position and occurs in ('', '?'):
                 return False
         else:
@@ -291,8 +291,15 @@ def evaluate__treat_expression(self: XPathToken, context: ta.ContextType = None)
         for _ in self[0].select(context):
             raise self.error('XPDY0050')
     elif self[1].label in ('kind test', 'sequence type', 'function test'):
+        if context is None:
+            raise self.missing_context()
+
+        item_context = copy(context)
         for position, item in enumerate(self[0].select(context)):
-            result = self[1].evaluate(context)
+            # The test has to be applied to each item of the operand
+            item_context.item = item
+            item_context.axis = 'self'
+            result = self[1].evaluate(item_context)
             if not result and isinstance(result, list):
                 raise self.error('XPDY0050')
             elif position and occurs in ('', '?'):
